@@ -197,9 +197,11 @@ class World:
         version = {"v1": 0, "v2c": 1}.get(kind, 3)
         self.agent = Agent(db, version=version if version != 3 else 1, bulk_policy=bulk_policy)
         self.engine: Optional[rusm.Engine] = None
-        self.cipher = rusm.StreamCipher()
+        self.cipher = rusm.StreamCipher()          # the client's privacy plug-in
+        self.engine_cipher = rusm.StreamCipher()   # the reference engine's own instance
+        self.engine_cipher.counter = 1000
         if version == 3:
-            users = [u._replace(cipher=self.cipher) for u in USERS.values()]
+            users = [u._replace(cipher=self.engine_cipher) for u in USERS.values()]
             self.engine = rusm.Engine(self.agent, ENGINE_ID, users, boots=boots, clock=clock or (lambda: 1000))
             if "priv" in kind:
                 install_priv_plugin(self.cipher)
